@@ -81,6 +81,21 @@ def ob_count(n, ncols, counter, variant, budget_s=120):
                 got = C.count_steps(notes, **kw)
                 st, groups = nc.reference_group(symx, meta, inc, same, False, "RAISE_EXCEPTION", "RAISE_EXCEPTION")
                 exp = sum(1 for g in groups if len(g) >= minimum)
+            elif counter in ("jumps_opts", "hands_opts"):
+                # count_jumps / count_hands with every same-beat mode and an include set (hands also with a minimum)
+                same, minimum, incname = variant
+                inc = nc.INCLUDE_SETS[incname]
+                kw = dict(same_beat_notes=G.SameBeatNotes[same])
+                kw["include_note_types"] = frozenset(N.NoteType[k] for k in inc) if inc is not None else frozenset(N.NoteType)
+                if counter == "hands_opts":
+                    if minimum != 3:
+                        kw["same_beat_minimum"] = minimum
+                    got = C.count_hands(notes, **kw)
+                else:
+                    minimum = 2
+                    got = C.count_jumps(notes, **kw)
+                st, groups = nc.reference_group(symx, meta, inc, same, False, "RAISE_EXCEPTION", "RAISE_EXCEPTION")
+                exp = sum(1 for g in groups if len(g) >= minimum)
             elif counter == "mines":
                 got = C.count_mines(notes)
                 exp = sum(1 for m in meta if m["kind"] == "MINE")
@@ -144,6 +159,11 @@ def obligations(tier):
                     continue
                 obs.append(dict(name=f"count_{c} n={nct} head={oh} tail={ot}", func="ob_count", args=(nct, ncols, c, (oh, ot)), budget_s=b, bounds=f"{nct} notes, 6 kinds"))
     for same in nc.SAME:
+        obs.append(dict(name=f"count_jumps {same} include=default", func="ob_count", args=(3, 3, "jumps_opts", (same, 2, "default")), budget_s=b, bounds="3 notes, 3 columns, 6 kinds"))
+        for minimum in ((3,) if tier == "quick" else (2, 3, 4)):
+            obs.append(dict(name=f"count_hands {same} min={minimum} include={'all' if minimum == 3 else 'default'}", func="ob_count",
+                            args=(3, 3, "hands_opts", (same, minimum, "all" if minimum == 3 else "default")), budget_s=b, bounds="3 notes, 3 columns, 6 kinds"))
+    for same in nc.SAME:
         for minimum in (1, 2, 3, 4):
             if tier == "quick" and minimum in (3, 4) and same != "JOIN_ALL":
                 continue
@@ -189,6 +209,19 @@ def replay(data):
             inc = nc.INCLUDE_SETS[incname]
             got = C.count_steps(notes, same_beat_notes=G.SameBeatNotes[same], same_beat_minimum=minimum,
                                 include_note_types=frozenset(NoteType[k] for k in inc) if inc else frozenset(NoteType))
+            _, groups = nc.concrete_reference(notes, inc, same, False, "RAISE_EXCEPTION", "RAISE_EXCEPTION")
+            exp = sum(1 for g in groups if len(g) >= minimum)
+        elif counter in ("jumps_opts", "hands_opts"):
+            same, minimum, incname = variant
+            inc = nc.INCLUDE_SETS[incname]
+            kw = dict(same_beat_notes=G.SameBeatNotes[same], include_note_types=frozenset(NoteType[k] for k in inc) if inc else frozenset(NoteType))
+            if counter == "hands_opts":
+                if minimum != 3:
+                    kw["same_beat_minimum"] = minimum
+                got = C.count_hands(notes, **kw)
+            else:
+                minimum = 2
+                got = C.count_jumps(notes, **kw)
             _, groups = nc.concrete_reference(notes, inc, same, False, "RAISE_EXCEPTION", "RAISE_EXCEPTION")
             exp = sum(1 for g in groups if len(g) >= minimum)
         elif counter == "mines":
